@@ -254,9 +254,61 @@ def same_bytes(sx, a, b):
 MIU_ALL, LTO_ALL = [128, 2175], [10, 2550]
 
 
+class Recorder(object):
+    """stands in for LogicalLinkController.activate(): records what connect()
+    passes down and reports 'no peer found' (both modes)"""
+    calls = []
+
+    @staticmethod
+    def activate(llc, mac, **cfg):
+        Recorder.calls.append((type(mac).__name__, dict(cfg)))
+        return None
+
+
+def passthrough(sx, role, rounds):
+    """the real connect() -> _llcp_connect() must hand the NFC-DEP options of
+    the caller to every activation attempt (each role, every round)"""
+    import nfc.clf
+    import nfc.llcp.llc
+    clf = nfc.clf.ContactlessFrontend()
+    clf.device = object()          # only tested for not being None here
+    opts = dict(brs=sx.int("brs", 0, 2), lri=sx.int("lri", 0, 3), lrt=sx.int("lrt", 0, 3),
+                rwt=sx.int("rwt", 0, 14), acm=sx.pick("acm", [True, False]))
+    given = dict(opts)
+    if role is not None:
+        opts['role'] = role
+    Recorder.calls = []
+    polls = [0]
+
+    def terminate():
+        polls[0] += 1
+        return polls[0] > rounds
+    real = nfc.llcp.llc.LogicalLinkController.activate
+    nfc.llcp.llc.LogicalLinkController.activate = Recorder.activate
+    try:
+        result = clf.connect(llcp=opts, terminate=terminate)
+    finally:
+        nfc.llcp.llc.LogicalLinkController.activate = real
+    sx.check(result is None, "passthrough:connect-result-without-peer")
+    per_round = 2 if role is None else 1
+    sx.check(len(Recorder.calls) == rounds * per_round, "passthrough:number-of-activation-attempts")
+    for i, (mac, cfg) in enumerate(Recorder.calls):
+        which = "first" if i == 0 else "later"
+        for k in sorted(given):
+            if k not in cfg:
+                sx.check(False, "passthrough:option-%s-not-passed-to-%s-attempt" % (k, which))
+            sx.check(sx.eq(cfg[k], given[k]), "passthrough:option-%s-changed-in-%s-attempt" % (k, which))
+    sx.reach("passthrough")
+    return [len(Recorder.calls), role]
+
+
 def partitions(tier):
     quick = tier == "quick"
     parts = []
+    for role in (None, "initiator", "target"):
+        for rounds in ((1, 3) if quick else (1, 2, 3, 5)):
+            parts.append(dict(name="passthrough:%s:%d" % (role, rounds), fn="passthrough",
+                              params=dict(role=role, rounds=rounds)))
 
     def act(name, tech, **kw):
         p = dict(tech=tech, brs_rng=[0, 2] if tech == '106A' else [1, 2],
@@ -301,7 +353,7 @@ def partitions(tier):
     return parts
 
 
-MUST_REACH = ["activated:106A", "activated:212F", "psl", "exchanged", "did", "nad"]
+MUST_REACH = ["activated:106A", "activated:212F", "psl", "exchanged", "did", "nad", "passthrough"]
 BOUNDS = {
     "quick": "two real LogicalLinkController.activate() stacks (Initiator and "
     "Target) over the stub air, passive activation at 106A and at 212F; "
